@@ -14,7 +14,7 @@ which the C03 theorems are stated, EQUAL to the generated loops.  Fail-closed: a
 import ast
 import os
 
-from .engine import Mismatch, need, fun_def, src
+from .engine import Mismatch, need, fun_def, src, code
 
 
 class Body:
@@ -90,7 +90,7 @@ class Body:
 def tr_toposort(tree):
     f = fun_def(tree, "toposort")
     need([a.arg for a in f.args.args] == ["end_node", "parents"], "toposort signature")
-    b = f.body
+    b = code(f.body)
     need(len(b) == 5, "toposort has %d top-level statements" % len(b))
     need(src(b[0]) == "child_counts = {}" and src(b[1]) == "stack = [end_node]", "initialisation of the counting loop")
     w1 = b[2]
@@ -110,7 +110,7 @@ def tr_toposort(tree):
 def tr_backward_pass(tree):
     f = fun_def(tree, "backward_pass")
     need([a.arg for a in f.args.args] == ["g", "end_node"], "backward_pass signature")
-    b = f.body
+    b = code(f.body)
     need(len(b) == 3 and src(b[0]) == "outgrads = {end_node: (g, False)}", "initial outgrads")
     lp = b[1]
     need(isinstance(lp, ast.For) and src(lp.target) == "node" and src(lp.iter) == "toposort(end_node)" and not lp.orelse and len(lp.body) == 3, "for node in toposort(end_node)")
